@@ -4,10 +4,43 @@ package vsync
 
 import (
 	"sync"
+	"time"
 	"unsafe"
 
 	"verif/rt"
 )
+
+// LeakWatch makes the native (uncontrolled) lock operations report a lock that cannot be acquired for LeakGrace as
+// a panic instead of blocking forever. The sequential harnesses run the real code on private instances, where a
+// lock is never held for longer than microseconds: one that stays unavailable for half a minute was left held by an
+// earlier call (a missing unlock on some return path) or is a self-deadlock. The panic is turned into a verdict by
+// the explorer; without the watch such a defect would hang the check instead of failing it.
+var (
+	LeakWatch bool
+	LeakGrace = 30 * time.Second
+)
+
+func nativeAcquire(try func() bool, block func(), what string) {
+	if !LeakWatch {
+		block()
+		return
+	}
+	if try() {
+		return
+	}
+	deadline := time.Now().Add(LeakGrace)
+	for d := 50 * time.Microsecond; !try(); {
+		if time.Now().After(deadline) {
+			waited := LeakGrace.String()
+			LeakGrace = time.Second // (the first leak has been established; later waits need not be as patient)
+			panic("vsync: " + what + " could not be acquired for " + waited + " outside a controlled execution: the lock was left held (missing unlock on a return path, or self-deadlock)")
+		}
+		time.Sleep(d)
+		if d < 20*time.Millisecond {
+			d *= 2
+		}
+	}
+}
 
 // RWMutex mirrors sync.RWMutex (writer preference included, see rt).
 type RWMutex struct {
@@ -17,7 +50,7 @@ type RWMutex struct {
 
 func (m *RWMutex) Lock() {
 	if !rt.Active() {
-		m.real.Lock()
+		nativeAcquire(m.real.TryLock, m.real.Lock, "RWMutex.Lock")
 		return
 	}
 	rt.RWLock(unsafe.Pointer(m))
@@ -38,7 +71,7 @@ func (m *RWMutex) Unlock() {
 
 func (m *RWMutex) RLock() {
 	if !rt.Active() {
-		m.real.RLock()
+		nativeAcquire(m.real.TryRLock, m.real.RLock, "RWMutex.RLock")
 		return
 	}
 	rt.RWRLock(unsafe.Pointer(m))
@@ -62,7 +95,7 @@ type Mutex struct {
 
 func (m *Mutex) Lock() {
 	if !rt.Active() {
-		m.real.Lock()
+		nativeAcquire(m.real.TryLock, m.real.Lock, "Mutex.Lock")
 		return
 	}
 	rt.MutexLock(unsafe.Pointer(m))
